@@ -543,7 +543,19 @@ func (c *vfE7VCluster) symbolise(s string) string {
 	for a, sym := range c.sym {
 		s = strings.ReplaceAll(s, a, sym)
 	}
-	return strings.ReplaceAll(s, c.ip, "127.0.0.1")
+	if c.ip != "" { // (a cluster value without stubs, as the Add tests build it, has no IP)
+		s = strings.ReplaceAll(s, c.ip, "127.0.0.1")
+	}
+	return s
+}
+
+// host: a host name as the model knows it — nsqadmin falls back to the host part of the configured address where a node
+// reports no hostname / broadcast address, and that is the cluster's private IP here, "127.0.0.1" in the model.
+func (c *vfE7VCluster) host(h string) string {
+	if c.ip != "" && h == c.ip {
+		return "127.0.0.1"
+	}
+	return h
 }
 
 // newSrv: an httptest server (plain or TLS) on the cluster's private IP, port chosen by the kernel.
@@ -916,7 +928,7 @@ func (cl *vfE7VCluster) render(kind string, status int, body []byte) string {
 		}
 		var ns, chs []string
 		for _, n := range t.Nodes {
-			ns = append(ns, vfE7S(cl.symbolise(n.Node))+"/"+vfE7S(n.Hostname)+"/"+n.cs()+"/"+vfE7B(n.Paused))
+			ns = append(ns, vfE7S(cl.symbolise(n.Node))+"/"+vfE7S(cl.host(n.Hostname))+"/"+n.cs()+"/"+vfE7B(n.Paused))
 		}
 		for _, c := range t.Channels {
 			// (the merged entry is the first node's own object: its node list misses that node, whichever came first)
@@ -932,7 +944,7 @@ func (cl *vfE7VCluster) render(kind string, status int, body []byte) string {
 		}
 		var nn []string
 		for _, n := range c.Nodes {
-			nn = append(nn, vfE7S(cl.symbolise(n.Node))+"~"+vfE7S(n.Hostname)+"~"+n.cs()+"~"+vfE7B(n.Paused))
+			nn = append(nn, vfE7S(cl.symbolise(n.Node))+"~"+vfE7S(cl.host(n.Hostname))+"~"+n.cs()+"~"+vfE7B(n.Paused))
 		}
 		return fmt.Sprintf("200 %s C/%s/%s/%s/%s/%s/%s/%s", warn(c.Message), vfE7S(c.ChannelName), vfE7S(cl.symbolise(c.Node)),
 			vfE7S(c.TopicName), c.cs(), vfE7B(c.Paused), cl.clientsStr(c.Clients), vfE7JoinSorted(nn, "+"))
@@ -965,7 +977,7 @@ func (cl *vfE7VCluster) render(kind string, status int, body []byte) string {
 			for _, t := range p.Topics {
 				ts = append(ts, vfE7S(t.Topic)+"~"+vfE7B(t.Tombstoned))
 			}
-			ps = append(ps, fmt.Sprintf("%s/%s/%s:%d/%s/%s/%s/%s", vfE7S(p.Hostname),
+			ps = append(ps, fmt.Sprintf("%s/%s/%s:%d/%s/%s/%s/%s", vfE7S(cl.host(p.Hostname)),
 				cl.symbolise(net.JoinHostPort(p.BroadcastAddress, strconv.Itoa(p.HTTPPort))), cl.symbolise(p.BroadcastAddress), p.TCPPort,
 				vfE7S(p.Version), vfE7B(p.OutOfDate), vfE7JoinSorted(ra, "+"), vfE7JoinSorted(ts, "+")))
 		}
